@@ -154,12 +154,14 @@ def parse_output(inv, rc, out):
         m = RE_OK.match(l)
         if m:
             reports.append("%s%s+" % (m.group(2), m.group(3)))
-            if inv[m.group(2)][int(m.group(3))] != m.group(1):
+            if (inv[m.group(2)] + [None] * MAXPOS)[int(m.group(3))] != m.group(1):
                 notes.append("report names a path that was not passed in that position: " + l)
             continue
         m = RE_FAIL.match(l)
         if m:
             reports.append("%s%s-" % (m.group(2), m.group(3)))
+            if (inv[m.group(2)] + [None] * MAXPOS)[int(m.group(3))] != m.group(1):
+                notes.append("report names a path that was not passed in that position: " + l)
             continue
         m = RE_MISS.match(l)
         if m:
